@@ -1,9 +1,12 @@
+pub mod analysis;
 pub mod checks;
 pub mod exec;
 pub mod langs;
 pub mod oracle {
     pub mod cc;
+    pub mod field;
 }
+pub mod rules;
 pub mod rng;
 pub mod run;
 pub mod sched;
@@ -29,7 +32,22 @@ fn gen_run(check: &'static dyn Check, seed: u64, i: u64, tier: Tier) -> Run {
 
 fn exec_isolated(check: &'static dyn Check, run: &Run) -> Outcome {
     let run = run.clone();
-    exec::in_fresh_thread(move || check.exec(&run))
+    exec::in_fresh_thread(move || {
+        let mut o = check.exec(&run);
+        if exec::take_counter_exhausted() && run.get("stride_max") > 0 {
+            // the K2 stride seam used up the u32 slot numbers: an artefact of the fault, no verdict
+            o.violations.clear();
+            o.discarded = Some("stride_exhausted_slot_numbers".into());
+            o.nontrivial = false;
+        }
+        if exec::take_work_exceeded() {
+            // too expensive (combinatorial blow-up of group variants): not a verdict of any kind
+            o.violations.clear();
+            o.discarded = Some("work_budget".into());
+            o.nontrivial = false;
+        }
+        o
+    })
 }
 
 #[derive(Clone, Debug)]
@@ -248,6 +266,15 @@ fn cmd_run(get: &dyn Fn(&str) -> Option<String>) -> i32 {
     let survey = std::env::args().any(|a| a == "--survey");
     let det_samples: u64 = get("--determinism").map(|s| s.parse().unwrap()).unwrap_or(if tier == Tier::Quick { 64 } else { 1024 });
 
+    // oracle / workload self-validation (a failure is a harness error, never a violation)
+    if ["C03", "C14", "C15", "C08R"].contains(&check.id()) {
+        for p in [3u32, 5, 7] {
+            if let Err(e) = rules::validate_pool(p, 200, seed) {
+                eprintln!("HARNESS ERROR: {e}");
+                return 2;
+            }
+        }
+    }
     println!("simcheck check={} property={} tier={:?} VERIF_SEED={} runs={} config={} guard={}", check.id(), prop, tier, seed, runs, config, exec::seam::GUARD_ON);
     let start = Instant::now();
     let next = Arc::new(AtomicU64::new(first));
@@ -268,8 +295,26 @@ fn cmd_run(get: &dyn Fn(&str) -> Option<String>) -> i32 {
     }));
     let known = Arc::new(known);
 
+    // backstop: a run that takes longer than 300 s of wall clock is a harness error (exit 2)
+    let running: Arc<Mutex<Vec<Option<(Instant, u64)>>>> = Arc::new(Mutex::new(vec![None; threads]));
+    {
+        let running = running.clone();
+        let check_id = check.id();
+        std::thread::spawn(move || loop {
+            std::thread::sleep(std::time::Duration::from_millis(500));
+            for slot in running.lock().unwrap().iter() {
+                if let Some((t, i)) = slot {
+                    if t.elapsed().as_secs() > 300 {
+                        eprintln!("HARNESS ERROR: run index {i} of check {check_id} (VERIF_SEED={seed}) exceeded 300 s of wall clock");
+                        std::process::exit(2);
+                    }
+                }
+            }
+        });
+    }
     let mut handles = Vec::new();
-    for _ in 0..threads {
+    for tno in 0..threads {
+        let running = running.clone();
         let next = next.clone();
         let stop = stop.clone();
         let agg = agg.clone();
@@ -287,7 +332,9 @@ fn cmd_run(get: &dyn Fn(&str) -> Option<String>) -> i32 {
             }
             let rs = rng::run_seed(seed, check.id(), i);
             let run = gen_run(check, seed, i, tier);
+            running.lock().unwrap()[tno] = Some((Instant::now(), i));
             let o = exec_isolated(check, &run);
+            running.lock().unwrap()[tno] = None;
             let mut a = agg.lock().unwrap();
             a.evaluations += 1;
             a.ops_executed += o.ops_executed;
